@@ -15,7 +15,7 @@ TRUSTED = ["ASan/UBSan/LSan verdicts on the implementation (support for the phys
 ASSUMPTIONS = ["physical memory safety outside the modelled arithmetic is observed, not proved (partial)", "allocation succeeds (C18 covers failures)"]
 RULE = ("mutated and structured exchanges x all chunking kinds x interleavings x gaps x callback policies (OK, DECLINED, STOP, ERROR, register "
         "tx hooks, destroy completed tx) x personalities x auto-destroy x small limits, hand-over scenarios, .t captures re-chunked, each connection "
-        "closed and destroyed; run under ASan+UBSan+LeakSanitizer; distinct = distinct final dumps")
+        "closed and destroyed, plus the distilled coverage corpus corpus/fuzz/conn.jsonl; run under ASan+UBSan+LeakSanitizer; distinct = distinct final dumps")
 
 
 def oracle(sc, outs):
@@ -32,6 +32,7 @@ def run(ctx, model_ok=True, proofs_broken=False):
     scripts = P.mixed_scripts(ctx, n, policy_p=0.7)
     scripts += P.handover_scripts(ctx, 300 if ctx.tier == "quick" else 3000)
     scripts += P.tfile_scripts(ctx, modes=("bytes", "rand"))
+    scripts += lib.load_fuzz_corpus(ctx, 1200, "C01")
     conncheck.run_conn_prop(ctx, "C01", scripts, oracle, "conn/memory", RULE, model_ok, san_prop=True)
 
 
